@@ -212,14 +212,15 @@ class C20(Prop):
             if o.startswith(("HANG", "CRASH", "MISSING", "panic", "harness-error")):
                 return "the library hung or aborted: %s" % o[:120]
         if lines and lines[0].startswith("stress"):
-            m = re.match(r"sent=(\d+) delivered=\[([^\]]*)\] total=(-?\d+) expected=(-?\d+) panics=(\d+)", out[0] if out else "")
+            m = re.match(r"sent=(\d+) delivered=\[([^\]]*)\] total=(-?\d+) expected=(-?\d+) panics=(\d+) nodes=(-?\d+)", out[0] if out else "")
             if not m:
                 return "unparsable stress result %r" % (out[:1],)
             w = lines[0].split()
             per = int(w[2])
             delivered = [int(x) for x in m.group(2).split(",")]
-            if int(m.group(5)) or any(d != per for d in delivered) or m.group(3) != m.group(4):
-                return "stress %s: %s (every send must be delivered exactly once, no panic)" % (" ".join(w[1:]), out[0])
+            if int(m.group(5)) or any(d != per for d in delivered) or m.group(3) != m.group(4) or m.group(6) != "0":
+                return ("stress %s: %s (every send must be delivered exactly once, no panic, and after the teardown no node may "
+                        "be left)" % (" ".join(w[1:]), out[0]))
             return None
         if self.overlapping(lines):
             # serialisability: a listener must be called once per transaction that sends to its stream
